@@ -20,7 +20,54 @@ EXPLANATION = "2-safety over hidden process state: the IR of seed(f) is re-gener
 
 
 def groups(tier, seed):
-    return [f"pure:{p[0]}" for p in seeded.programs(tier)] + ["twin:leaky"]
+    return [f"pure:{p[0]}" for p in seeded.programs(tier)] + ["twin:leaky", "concrete_index"]
+
+
+def concrete_index(g):
+    """Run eagerly, seed(f) meets CONCRETE branch indices; under jit / vmap-over-keys they are tracers.  Both ways of
+    meeting the same cond must derive the same keys: the IR with the predicate a closed-over constant (concrete for the
+    interpreter) equals the IR with the predicate an argument (a tracer), at that value."""
+    from genjax import seed, normal
+
+    def body(flag, mu):
+        y = jax.lax.cond(flag, lambda m: normal.sample(m, 1.0) + normal.sample(m, 2.0), lambda m: m * 2.0, mu)
+        z = normal.sample(mu, 1.0)
+        return y, z, normal.sample(z, 1.0)
+    for val in (True, False):
+        const = jnp.asarray(val)
+        # (Under an outer trace every primitive application is staged, so even a predicate computed from constants reaches
+        # the interpreter as a tracer; a branch of the interpreter taken ONLY for concrete values cannot be reached by
+        # tracing -- see DESIGN section 7.  jax.ensure_compile_time_eval was tried as an emulation of the eager path and
+        # rejected: it changes how genjax's own staging behaves and raised on the unchanged tree, a false alarm.)
+        Tc = g.try_trace(f"seed(f) with a constant cond predicate ({val}) traces", lambda k, mu: seed(lambda m: body(const, m))(k, mu),
+                         jax.random.key(0), np.float32(0.3))
+        Tt = g.try_trace(f"seed(f) with a traced cond predicate traces", lambda k, fl, mu: seed(lambda f_, m: body(f_, m))(k, fl, mu),
+                         jax.random.key(0), np.bool_(val), np.float32(0.3))
+        if Tc is None or Tt is None:
+            continue
+        Tc.no_validate = Tt.no_validate = True
+        kc, mc = Tc.flat_in
+        kt, ft, mt = Tt.flat_in
+        sub = [(sj.obj(kt).item(), sj.obj(kc).item()), (sj.obj(mt).item(), sj.obj(mc).item()), (sj.obj(ft).item(), z3.BoolVal(val))]
+        outs_t = [np.vectorize(lambda e: z3.simplify(z3.substitute(e, *sub)), otypes=[object])(sj.obj(o)) for o in Tt.flat_out]
+        r = g.eq(f"predicate {val}: a cond whose predicate is a closed-over constant and the same cond with the predicate passed as an argument give the same draws",
+                 [sj.obj(o) for o in Tc.flat_out], outs_t)
+        if r is not None and r["verdict"] == "inconclusive" and "sat" in str(r.get("detail", "")):
+            # key-typed inputs cannot be replayed through the numeric evaluator: replay concretely, eager against jit
+            # (location 0 and power-of-two scales keep loc + scale * z free of fused-multiply-add differences)
+            try:
+                fn = lambda k: seed(lambda m: body(const, m))(k, jnp.float32(0.0))
+                diffs = []
+                for ks in (0, 3, 11):
+                    a = jax.tree_util.tree_leaves(fn(jax.random.key(ks)))
+                    b = jax.tree_util.tree_leaves(jax.jit(fn)(jax.random.key(ks)))
+                    if not all(np.array_equal(np.asarray(x), np.asarray(y)) for x, y in zip(a, b)):
+                        diffs.append((ks, [float(x) for x in a], [float(y) for y in b]))
+                if diffs:
+                    r["verdict"], r["replay_kind"] = "violation", "structural"
+                    r["detail"] = f"solver: the two IRs differ; concrete replay: key {diffs[0][0]}: eager {diffs[0][1]} != jit {diffs[0][2]}"
+            except Exception as e:
+                r["detail"] = str(r.get("detail", "")) + f"; concrete replay failed: {type(e).__name__}: {e}"
 
 
 def leaky_twin(g):
@@ -72,6 +119,8 @@ def perturb(i):
 
 
 def run_group(g, gid):
+    if gid == "concrete_index":
+        return concrete_index(g)
     from genjax import seed, pjax
     kind, _, name = gid.partition(":")
     if kind == "twin":
